@@ -20,7 +20,7 @@ META = {
              "beyond), with a repeated call and with re-use of the same objects on another cube and back; non-mutating "
              "index methods are snapshotted likewise. Non-trivial: a call with >=1 missing fact or weight row; distinct "
              "by content hash"),
-    "require": {t: ["calls:calculate", "calls:shortcut", "calls:construct", "calls:construct_with_inferred_shape", "calls:walk", "calls:index_method",
+    "require": {t: ["calls:calculate", "calls:shortcut", "same_array_object_edited_in_place_between_calls:checked", "calls:construct", "calls:construct_with_inferred_shape", "calls:walk", "calls:index_method",
                     "cube:ccube", "cube:xcube", "perm:checked", "reuse_other_cube:checked", "class:garbage_under_false",
                     "reuse_other_rowcount:checked", "repeated_object_in_list:checked", "reuse_zero_dim_cube:checked", "state_on_index_objects:checked"]
                 for t in ("quick", "thorough")},
@@ -296,6 +296,41 @@ def judge(ctx, case):
         ctx.count("calls:shortcut")
         if not w2.check("%s(...) shortcut" % agg):
             return
+    # The caller's own NaN-marked arrays, edited in place between two calls (a missing value filled in, a value
+    # struck out) and passed again as the same objects: the second result must be the one a byte-identical fresh
+    # copy gives - results depend on the arguments' content, not on which object carries it or on earlier calls.
+    if n >= 2:
+        for agg, inp in zip(case["aggs"], case["inputs"]):
+            if agg not in ("sum", "mean", "valid_count", "count") or inp["fact"]["validity"] is not None \
+                    or inp["fact"]["values"].dtype.kind != "f":
+                continue
+            ig = inp["ignore_missing"]
+            r = aggr.nat_for(inp)
+            f = gen.fact_arg(inp["fact"])
+            wt = gen.weight_arg(inp["weights"])
+            nan_weights = isinstance(wt, numpy.ndarray) and wt.dtype.kind == "f"
+
+            def run(fact, weights):
+                if agg == "count":
+                    return cube.count(weights=weights, N=n if not dense else None, ignore_missing=ig, return_missing_as=r)
+                return getattr(cube, agg)(fact, weights=weights, ignore_missing=ig, return_missing_as=r)
+
+            if agg == "count" and not nan_weights:
+                continue
+            run(f, wt)
+            target = wt if agg == "count" else f
+            target[0] = numpy.nan
+            target[-1] = 1.25
+            got = freeze(run(f, wt))
+            want = freeze(run(f.copy(), wt.copy() if isinstance(wt, numpy.ndarray) else wt))
+            ctx.count("calls:shortcut", 3)
+            ctx.count("same_array_object_edited_in_place_between_calls:checked")
+            if not same(got, want):
+                ctx.violation("stale-after-in-place-edit:%s:%s" % (kind, agg),
+                              "%s.%s on an array edited in place since the previous call differs from the same call on a "
+                              "byte-identical fresh copy" % (kind, agg), case)
+                return
+            break
     if kind == "ccube" and dense and all(d.ndim == 1 for d in dense):
         cube.interactions()
         log = []
